@@ -335,7 +335,7 @@ def _reproduces(mod: Any, plan: dict[str, Any], sig: str) -> tuple[bool, dict[st
 
 
 def minimise(mod: Any, plan: dict[str, Any], sig: str, budget_s: float = 40.0,
-             width: int = 8) -> dict[str, Any]:
+             width: int = 16) -> dict[str, Any]:
     shrink = getattr(mod, "shrink", None)
     if shrink is None:
         return plan
